@@ -272,7 +272,9 @@ def deviations():
 DEVS = deviations()
 REDUCED = [k for k, f in enumerate(DEVS) if f.__name__ in ("models=2:far", "models=2:near", "icode", "d_icode_pair", "altloc(0.40,0.60)", "repeat(0.50,1.00)",
                                                           "close(0.50,1.00,same-res)", "chain3('0.50', '1.00', '0.50')", "d_hetatm", "d_noocc")]
-CIF_OPTS = [dict(), dict(null_icode="."), dict(null_alt="?"), dict(null_occ="."), dict(label_differs=True), dict(label_seq_null=".", label_differs=True)]
+CIF_OPTS = [dict(), dict(null_icode="."), dict(null_alt="?"), dict(null_occ="."), dict(label_differs=True), dict(label_seq_null=".", label_differs=True),
+            # a file without the optional items auth_comp_id / auth_atom_id, whose hetero groups have no label_seq_id (as 8btk_B7.cif)
+            dict(label_seq_null=".", label_differs=True, omit_items=("auth_comp_id", "auth_atom_id"))]
 
 
 def BOUNDS(tier):
@@ -410,7 +412,7 @@ def judge(t, m, structure, tag, out):
     obs = []
     for res in structure.residues:
         for a in res.atoms:
-            obs.append(((res.chain, res.number, res.icode, res.name), a.name, ("%.3f" % a.x, "%.3f" % a.y, "%.3f" % a.z), a.model, res.model))
+            obs.append((((res.chain or "").strip(), res.number, res.icode, res.name), a.name, ("%.3f" % a.x, "%.3f" % a.y, "%.3f" % a.z), a.model, res.model))  # a blank chain id is blank, however many blanks
     # model purity
     wrong = [o for o in obs if o[3] != m or o[4] != m]
     if wrong:
@@ -418,7 +420,7 @@ def judge(t, m, structure, tag, out):
         return "wrong-model"
     by_key = {}
     for a in atoms:
-        key = ((a["chain"], a["resseq"], a["icode"], a["resname"]), a["name"])
+        key = (((a["chain"] or "").strip(), a["resseq"], a["icode"], a["resname"]), a["name"])
         by_key.setdefault(key, []).append(a)
     if _unjudged(atoms):
         return "unjudged"
@@ -465,7 +467,7 @@ def judge(t, m, structure, tag, out):
             return "lost"
     order_want = []
     for a in atoms:
-        ident = (a["chain"], a["resseq"], a["icode"], a["resname"])
+        ident = ((a["chain"] or "").strip(), a["resseq"], a["icode"], a["resname"])
         if ident not in order_want and any(k[0] == ident for k in seen):
             order_want.append(ident)
     order_got = []
